@@ -187,12 +187,18 @@ pub fn lz11_form(len: usize) -> usize {
 /// `disp_raw_override`: if Some((token_index, raw_disp_minus_1_field)), that reference's
 /// 12-bit displacement field is replaced (used to plant references before the start).
 pub fn encode(tokens: &[Token], kind: Kind, declared: usize, disp_override: Option<(usize, usize)>) -> Vec<u8> {
+    encode_with_header(tokens, kind, declared, disp_override, false)
+}
+
+/// `force_extended`: LZ11 only — use the 8-byte header (24-bit size 0, 32-bit size follows)
+/// whatever the size; the format gives that form no minimum.
+pub fn encode_with_header(tokens: &[Token], kind: Kind, declared: usize, disp_override: Option<(usize, usize)>, force_extended: bool) -> Vec<u8> {
     let mut out = Vec::new();
     out.push(match kind {
         Kind::Lz10 => 0x10,
         Kind::Lz11 => 0x11,
     });
-    if declared < (1 << 24) && !(declared == 0 && kind == Kind::Lz11) {
+    if declared < (1 << 24) && !(declared == 0 && kind == Kind::Lz11) && !(force_extended && kind == Kind::Lz11) {
         out.push((declared & 0xFF) as u8);
         out.push(((declared >> 8) & 0xFF) as u8);
         out.push(((declared >> 16) & 0xFF) as u8);
